@@ -1032,7 +1032,9 @@ theorem recvLoop_progress : ∀ (fuel : Nat) (c : Conn) (msg : List UInt8) (pm :
           · split
             · simp [hf]; omega
             · simp [hf]; omega
-          · -- control / reserved opcodes
+          · split
+            case isFalse => simp [hf]; omega      -- reserved opcode: closed, nothing delivered
+            -- ping / pong
             have hc' : ∀ c' : Conn, c'.fault = false → c'.inp = rest →
                 (if (fin && (decide (opcode < 8) || !pm)) = true then (msg, c') else recvLoop fuel c' msg pm).2.fault = false ∧
                 (if (fin && (decide (opcode < 8) || !pm)) = true then (msg, c') else recvLoop fuel c' msg pm).2.inp.length ≤ c.inp.length ∧
@@ -1117,11 +1119,13 @@ theorem recvLoop_fuel : ∀ (fuel : Nat) (c : Conn) (msg : List UInt8) (pm : Boo
         · split
           · rfl
           · split
-            · rfl
-            · apply hr
-              split
-              · split <;> rfl
+            · split
               · rfl
+              · apply hr
+                split
+                · split <;> rfl
+                · rfl
+            · rfl
 
 theorem closed_eta (c : Conn) (h : c.closed = true) : { c with closed := true } = c := by
   cases c; simp at h; simp [h]
@@ -1186,10 +1190,12 @@ theorem recvLoop_bounded : ∀ (fuel : Nat) (c : Conn) (msg : List UInt8) (pm : 
         · split
           · split
             · simp; omega
-            · exact hm
+            · exact Nat.zero_le _
           · split
-            · exact hm
-            · exact ih _ _ _ hm
+            · split
+              · exact hm
+              · exact ih _ _ _ hm
+            · exact Nat.zero_le _
 
 theorem receiveAll_bounded : ∀ (fuel : Nat) (c : Conn) (acc : List (List UInt8)),
     (∀ m ∈ acc, m.length ≤ 2147483632) → ∀ m ∈ (receiveAll fuel c acc).1, m.length ≤ 2147483632 := by
